@@ -58,7 +58,7 @@ type OpWeights map[int]int
 
 func drawOp(t *rapid.T, w OpWeights, label string, hs int, exact bool) POp {
 	total := 0
-	kinds := []int{KOpen, KAdd, KAddMulti, KAbandon, KCompactAll, KExpire, KAutoCompact, KRead, KClose, KClean}
+	kinds := []int{KOpen, KAdd, KAddMulti, KAbandon, KCompactAll, KExpire, KAutoCompact, KRead, KClose, KClean, KCompactRange}
 	for _, k := range kinds {
 		total += w[k]
 	}
@@ -80,6 +80,9 @@ func drawOp(t *rapid.T, w OpWeights, label string, hs int, exact bool) POp {
 		for j := 0; j < m; j++ {
 			op.Txs = append(op.Txs, drawTx(t, fmt.Sprintf("%s.%d", label, j), hs, exact))
 		}
+	case KCompactRange:
+		op.A = rapid.IntRange(0, 7).Draw(t, "a")
+		op.B = rapid.IntRange(0, 7).Draw(t, "b")
 	case KExpire:
 		op.Exp = &model.Expiry{Time: uint64(rapid.IntRange(0, 20).Draw(t, "etime")), Min: uint64(rapid.IntRange(0, 6).Draw(t, "emin"))}
 	}
